@@ -163,15 +163,14 @@ func (c rendererContext) RenderChildren(w io.Writer) Error {
 
 func (c rendererContext) RenderFile(filename string, b map[string]any) (string, error) {
 	source, err := os.ReadFile(filename)
-	if err != nil && os.IsNotExist(err) {
-		// Is it cached?
+	if err != nil {
+		// Is it cached? (There is no such file, whether the error says so or says that a
+		// directory on the way is a regular file, that the name is too long, ...)
 		if cval, ok := c.ctx.config.Cache[filename]; ok {
 			source = cval
 		} else {
 			return "", err
 		}
-	} else if err != nil {
-		return "", err
 	}
 	root, err := c.ctx.config.Compile(string(source), c.sourceLoc())
 	if err != nil {
